@@ -84,53 +84,10 @@ func c20(r *Report) {
 				r.Fail("flow", key, "the recorded pair does not come from the parsed Range header", nil, pair.Pos())
 				continue
 			}
-			// start: a dominating comparison start >= size (or size <= start ...) whose taken edge rejects
-			okStart := false
-			for _, ce := range ctrlEdges(pair.Block()) {
-				for _, b := range condLeaves(ce.If.Cond) {
-					sx, sy := fromAtoi(w, b.X) && !sizeOfContent(w, b.X), fromAtoi(w, b.Y) && !sizeOfContent(w, b.Y)
-					cx, cy := sizeOfContent(w, b.X), sizeOfContent(w, b.Y)
-					switch {
-					case sx && cy && !ce.Taken && ((b.Op == token.GEQ && !hasMinusOne(b.Y)) || (b.Op == token.GTR && hasMinusOne(b.Y))),
-						cx && sy && !ce.Taken && ((b.Op == token.LEQ && !hasMinusOne(b.X)) || (b.Op == token.LSS && hasMinusOne(b.X))):
-						okStart = true
-					}
-				}
-			}
-			r.Sites++
-			r.Decide("path", fmt.Sprintf("(*M/%s.Modifier).ModifyResponse: a first position at or beyond the end is rejected", m.name), okStart, "start >= size leads to 416 before the pair is recorded", "a first byte position beyond the content is accepted: the slice expression panics (body) or bytes outside the file are fabricated (static)", pair.Pos())
-			// end: clamped (phi with a size-derived edge) or rejected
-			okEnd := false
-			if phi, ok := endV.(*ssa.Phi); ok {
-				for i, e := range phi.Edges {
-					if !sizeOfContent(w, e) {
-						continue
-					}
-					// the clamp must also cover end == size: the guarding comparison is
-					// end >= size (or end > size-1), not end > size
-					for _, ce := range ctrlEdges(phi.Block().Preds[i]) {
-						for _, b := range condLeaves(ce.If.Cond) {
-							if !ce.Taken {
-								continue
-							}
-							if fromAtoi(w, b.X) && !sizeOfContent(w, b.X) && sizeOfContent(w, b.Y) {
-								exact := !hasMinusOne(b.Y)
-								if (b.Op == token.GEQ && exact) || (b.Op == token.GTR && !exact) {
-									okEnd = true
-								}
-							}
-							if fromAtoi(w, b.Y) && !sizeOfContent(w, b.Y) && sizeOfContent(w, b.X) {
-								exact := !hasMinusOne(b.X)
-								if (b.Op == token.LEQ && exact) || (b.Op == token.LSS && !exact) {
-									okEnd = true
-								}
-							}
-						}
-					}
-				}
-			}
-			r.Sites++
-			r.Decide("path", key, okEnd, "end = size-1 when end >= size", "a last byte position beyond the content is used as is: out-of-range slice (panic) or a buffer sized by the header", pair.Pos())
+			// (which pairs are accepted and what is recorded for them is decided by evaluation in
+			// rangeArithmeticRules below; the shape-based versions of those two rules were retired
+			// because they rejected equivalent formulations such as !(start <= end && start < size)
+			// or a clamp through a min helper)
 			// every slice of the content / buffer size uses the recorded pairs only
 			okUse := true
 			for _, in := range instrs(f) {
@@ -214,6 +171,16 @@ func c20(r *Report) {
 					if b, isB := c.Call.Value.(*ssa.Builtin); isB && b.Name() == "len" {
 						if c.Call.Args[0] == content || sameCall(c.Call.Args[0], content) || (isFieldLoad(content) && pathOf(c.Call.Args[0]) == pathOf(content)) {
 							ok2 = true
+						}
+					}
+				}
+				// (*bytes.Buffer).Len() of the buffer whose Bytes() are attached
+				for v := range w.backSlice(cl.Val, flowOpt{}) {
+					if c, isC := v.(*ssa.Call); isC && calleeName(c) == "(*bytes.Buffer).Len" {
+						for x := range w.backSlice(content, flowOpt{}) {
+							if bc, isB := x.(*ssa.Call); isB && calleeName(bc) == "(*bytes.Buffer).Bytes" && bc.Call.Args[0] == c.Call.Args[0] {
+								ok2 = true
+							}
 						}
 					}
 				}
@@ -398,7 +365,7 @@ func c20(r *Report) {
 				}
 			}
 			r.Sites++
-			r.Decide("path", fmt.Sprintf("(*M/%s.Modifier).ModifyResponse: an unsatisfiable range returns 416 without attaching a body", m.name), ok416 && n416 >= 2, fmt.Sprintf("%d rejecting arms, each returns", n416), "after setting 416 a body is still attached, or a rejecting arm is missing", f.Pos())
+			r.Decide("path", fmt.Sprintf("(*M/%s.Modifier).ModifyResponse: an unsatisfiable range returns 416 without attaching a body", m.name), ok416 && n416 >= 1, fmt.Sprintf("%d rejecting arms, each returns", n416), "after setting 416 a body is still attached, or a rejecting arm is missing", f.Pos())
 			// single range: Content-Range set
 			okCR := false
 			for _, h := range headerCalls(f) {
